@@ -358,7 +358,8 @@ func (f *Failover) doBuild(
 		}
 
 		if f.config.FailedUpdateTTL > -1 {
-			writeErr := f.Errors.Write(ctx, key, err)
+			// The TTL that caller or builder attached to the value does not apply to the cached failure.
+			writeErr := f.Errors.Write(WithTTL(ctx, DefaultTTL, false), key, err)
 			if writeErr != nil && f.logError != nil {
 				f.logError(ctx, "failed to cache update failure",
 					"error", writeErr,
